@@ -178,7 +178,7 @@ def compile_obj(src, flags, hdig):
 def build_harness(pid, spec, variant):
     """variant: '' | 't32' | 't64' -> path of binary or (None, error text)"""
     base = [f for f in CXXFLAGS if 'sanitize' not in f and f != '-fno-omit-frame-pointer'] if variant.startswith('mc') else CXXFLAGS
-    flags = base + ['-D%s=1' % GUARD] + (T32 if variant in ('t32', 'mc_t32') else []) + spec.get('cxxflags', [])
+    flags = base + ['-D%s=1' % GUARD] + (T32 if variant in ('t32', 'mc_t32') else []) + (['-DN2K_VERIF_MEMCHECK=1'] if variant.startswith('mc') else []) + spec.get('cxxflags', [])
     gen_spec.run()
     hdig = headers_digest()
     srcs = [os.path.join(VERIF, 'harness', spec['harness'])] + [os.path.join(SRC, s) for s in spec.get('repo_srcs', [])]
